@@ -325,7 +325,7 @@ pub fn decompress_recording(
 /// C17: tinfl_decompress reconstructs the output window from (start, next, remaining size) and
 /// writes back consumed/produced counts; every access stays inside the caller's ranges.
 #[kani::proof]
-#[kani::unwind(6)]
+#[kani::unwind(8)]
 #[kani::stub(mzcore::decompress, decompress_recording)]
 fn w_tinfl_decompress() {
     unsafe {
